@@ -6,34 +6,36 @@ from ..mir import callee_of
 
 CORE = "frost_core::"
 
-# reviewed draw-site table: function -> {callee name: count} of calls that receive the caller's rng
-DRAW_SITES = {
-    CORE + "round1::Nonce::<C>::new": {"fill_bytes": 1},
-    CORE + "round1::SigningNonces::<C>::new": {"new": 2},
-    CORE + "round1::preprocess": {"new": 1},
-    CORE + "round1::commit": {"preprocess": 1},
-    CORE + "random_nonzero": {"random": 1},
-    CORE + "keys::generate_coefficients": {},            # the draw is in its closure
-    CORE + "keys::generate_coefficients::{closure#0}": {"random": 1},
-    CORE + "signing_key::SigningKey::<C>::new": {"random_nonzero": 1},
-    CORE + "signing_key::SigningKey::<C>::sign": {"single_sign": 1},
-    CORE + "signing_key::SigningKey::<C>::default_sign": {"generate_nonce": 1},
-    CORE + "traits::Ciphersuite::generate_nonce": {"random_nonzero": 1},
-    CORE + "traits::Ciphersuite::single_sign": {"default_sign": 1},
-    "<frost_secp256k1_tr::Secp256K1Sha256TR as frost_core::traits::Ciphersuite>::generate_nonce": {"random_nonzero": 1},
-    "<frost_secp256k1_tr::Secp256K1Sha256TR as frost_core::traits::Ciphersuite>::single_sign": {"default_sign": 1},
-    CORE + "keys::generate_with_dealer": {"new": 1, "split": 1},
-    CORE + "keys::split": {"generate_coefficients": 1},
-    CORE + "keys::dkg::part1": {"new": 1, "generate_coefficients": 1, "compute_proof_of_knowledge": 1},
-    CORE + "keys::dkg::compute_proof_of_knowledge": {"generate_nonce": 1},
-    CORE + "keys::refresh::compute_refreshing_shares": {"generate_coefficients": 1},
-    CORE + "keys::refresh::refresh_dkg_part1": {"generate_coefficients": 1, "compute_proof_of_knowledge": 1},
-    CORE + "keys::repairable::repair_share_part1": {"generate_coefficients": 1},
-    CORE + "batch::Verifier::<C>::verify": {"random": 1},
-    "frost_rerandomized::Randomizer::<C>::new": {"random": 1},
-    "frost_rerandomized::Randomizer::<C>::new_from_commitments": {"fill_bytes": 1},
-    "frost_rerandomized::RandomizedParams::<C>::new": {"new": 1},
-    "frost_rerandomized::RandomizedParams::<C>::new_from_commitments": {"new_from_commitments": 1},
+# reviewed draw summaries: operation -> {primitive draw: {multiplicity: count}} (engine E, draws.draw_summary).  The
+# summary follows the caller's rng through every forwarding call down to the primitive draws (RngCore::fill_bytes,
+# Field::random of the ciphersuite) and multiplies by the enclosing loops, so it does not depend on how a draw is routed.
+RETRY = "retry(random_nonzero)"
+DRAW_SUMMARY = {
+    CORE + "round1::Nonce::<C>::new": {"Rng::fill_bytes": {"1": 1}},
+    CORE + "round1::SigningNonces::<C>::new": {"Rng::fill_bytes": {"1": 2}},
+    CORE + "round1::preprocess": {"Rng::fill_bytes": {"n(arg1)": 2}},
+    CORE + "round1::commit": {"Rng::fill_bytes": {"1": 2}},
+    CORE + "random_nonzero": {"Field::random": {RETRY: 1}},
+    CORE + "keys::generate_coefficients": {"Field::random": {"n(arg1)": 1}},
+    CORE + "signing_key::SigningKey::<C>::new": {"Field::random": {RETRY: 1}},
+    CORE + "signing_key::SigningKey::<C>::sign": {"Field::random": {RETRY: 1}},
+    CORE + "signing_key::SigningKey::<C>::default_sign": {"Field::random": {RETRY: 1}},
+    CORE + "traits::Ciphersuite::generate_nonce": {"Field::random": {RETRY: 1}},
+    CORE + "traits::Ciphersuite::single_sign": {"Field::random": {RETRY: 1}},
+    "<frost_secp256k1_tr::Secp256K1Sha256TR as frost_core::traits::Ciphersuite>::generate_nonce": {"Field::random": {RETRY: 1}},
+    "<frost_secp256k1_tr::Secp256K1Sha256TR as frost_core::traits::Ciphersuite>::single_sign": {"Field::random": {RETRY: 1}},
+    CORE + "keys::generate_with_dealer": {"Field::random": {RETRY: 1, "n(Sub((arg2 as usize), 1))": 1}},
+    CORE + "keys::split": {"Field::random": {"n(Sub((arg3 as usize), 1))": 1}},
+    CORE + "keys::dkg::part1": {"Field::random": {RETRY: 2, "n(Sub((arg3 as usize), 1))": 1}},
+    CORE + "keys::dkg::compute_proof_of_knowledge": {"Field::random": {RETRY: 1}},
+    CORE + "keys::refresh::compute_refreshing_shares": {"Field::random": {"n(Sub((some(arg1.min_signers) as usize), 1))": 1}},
+    CORE + "keys::refresh::refresh_dkg_part1": {"Field::random": {RETRY: 1, "n(Sub((arg3 as usize), 1))": 1}},
+    CORE + "keys::repairable::repair_share_part1": {"Field::random": {"n(Sub(slice::len(arg1), 1))": 1}},
+    CORE + "batch::Verifier::<C>::verify": {"Field::random": {"each(arg1.signatures)": 1}},
+    "frost_rerandomized::Randomizer::<C>::new": {"Field::random": {"1": 1}},
+    "frost_rerandomized::Randomizer::<C>::new_from_commitments": {"Rng::fill_bytes": {"1": 1}},
+    "frost_rerandomized::RandomizedParams::<C>::new": {"Field::random": {"1": 1}},
+    "frost_rerandomized::RandomizedParams::<C>::new_from_commitments": {"Rng::fill_bytes": {"1": 1}},
 }
 
 # secret outputs that must depend on the caller's rng: function -> list of (description, predicate on return term)
@@ -62,8 +64,7 @@ def per_coefficient_draw(ctx):
 def run(ctx):
     ctx.decided = ("no call or cast in workspace library code reaches an entropy source other than a caller-supplied "
                    "CryptoRng (getrandom/rand/OsRng/time/HashMap RandomState/addresses): expected count 0, with a "
-                   "positive control that must fire on every run; the calls that consume the caller's rng are exactly "
-                   "the reviewed draw sites; per-item draws sit inside the per-item construct (closure of the "
+                   "positive control that must fire on every run; the symbolic count of primitive draws (fill_bytes / Field::random, multiplied by the enclosing loops and instantiated through every forwarding call) of each rng-consuming operation equals the reviewed summary; per-item draws sit inside the per-item construct (closure of the "
                    "coefficient generator, batch loop, retry loop, pre-processing loop); distinct roles come from "
                    "distinct call-site executions; every secret output of the entry points depends on the rng; the six "
                    "Field::random implementations forward the given rng.")
@@ -86,62 +87,44 @@ def run(ctx):
                   % (sorted(need - fx), sorted(fx)))
     except facts.FactError as e:
         ctx.violation("DRAW-own", "fixtures", "positive-control", "fixture crate could not be analysed: %s" % e)
-    # (ii) draw sites: every call that receives the caller's rng
+    # (ii) draw summaries: how many primitive draws every rng-consuming operation makes, through all forwarding calls
     seen_fns = set()
+    memo = {}
+    core_by_name = {}
+    for k in DRAW_SUMMARY:
+        if k.startswith(CORE):
+            core_by_name[k[len(CORE):]] = k
     for f in P.fns.values():
-        if not f.has_body or not f.crate.startswith("frost"):
+        if not f.has_body or not f.crate.startswith("frost") or f.kind == "Closure":
             continue
-        rp = draws.rng_params(f)
-        is_clo = f.kind == "Closure"
-        if not rp and not is_clo:
+        if not draws.rng_params(f):
             continue
-        v = FnView.get(P, f)
-        if is_clo:
-            # closures capture the rng: upvar whose type is &mut R of the parent
-            parent = P.fns.get(f.j.get("parent_fn"))
-            if not parent or not draws.rng_params(parent):
-                continue
-            rngp = lambda t: t[0] == "field" and t[1] == ("arg", 1)
-            got = {}
-            for (bb, t, ci) in f.calls():
-                if ci and any(mentions(a, rngp) and "&mut" in ty for a, ty in zip(v.call_args(bb), t["arg_tys"])):
-                    got[ci["name"]] = got.get(ci["name"], 0) + 1
-            if not got:
-                continue
-        else:
-            rngp = lambda t, rp=rp: t[0] == "arg" and t[1] in rp
-            got = {}
-            for (bb, t, ci) in f.calls():
-                if not ci:
-                    continue
-                a = v.call_args(bb)
-                hit = False
-                for x, ty in zip(a, t["arg_tys"]):
-                    if mentions(x, rngp) and (ty.startswith("&mut") or ty in [f.j["inputs"][i - 1] for i in rp]):
-                        # the rng itself (or a reborrow), not a value derived from it
-                        if base_of(x) in [("arg", i) for i in rp] or (x[0] == "closure"):
-                            hit = True
-                if hit:
-                    got[ci["name"]] = got.get(ci["name"], 0) + 1
-        is_wrapper = not f.crate == "frost_core" and f.key not in DRAW_SITES
-        if is_wrapper and f.crate != "frost_rerandomized":
-            # thin ciphersuite wrappers: exactly one forwarding call to the core function of the same name
-            ctx.check(len(got) == 1 and sum(got.values()) == 1 and (list(got)[0] == f.name or f.name == "random"),
-                      "DRAW-site", f.key, "wrapper-forwards-rng-once",
-                      "ciphersuite wrapper %s must forward its rng to exactly one core call of the same name (found %s)"
-                      % (short(f.key), got), f.loc)
+        got = draws.normal_form(draws.draw_summary(P, f, memo))
+        if f.key in DRAW_SUMMARY:
+            seen_fns.add(f.key)
+            exp = DRAW_SUMMARY[f.key]
+            ctx.check(got == exp, "DRAW-site", f.key, "draws",
+                      "primitive draws made with the caller's rng by %s are %s, reviewed: %s (a draw was added, removed, "
+                      "duplicated, hoisted out of its loop or its count now follows another quantity)" % (short(f.key), got, exp),
+                      f.loc, {"found": got})
             continue
-        exp = DRAW_SITES.get(f.key)
-        seen_fns.add(f.key)
-        if exp is None:
-            ctx.violation("DRAW-site", f.key, "unreviewed-rng-consumer",
-                          "%s consumes a caller-supplied rng (%s) but is not in the reviewed draw-site table" % (short(f.key), got), f.loc)
+        if (f.j.get("trait") or "").endswith("::Field") or f.name == "random" and "Field" in f.key:
+            # the ciphersuite's scalar sampler: exactly one forwarding call to the curve library's sampler
+            ctx.check(len(got) == 1 and list(got.values())[0] == {"1": 1}, "DRAW-site", f.key, "wrapper-forwards-rng-once",
+                      "Field::random of %s must hand the caller's rng to exactly one sampler call (found %s)" % (short(f.key), got), f.loc)
             continue
-        ctx.check(got == exp, "DRAW-site", f.key, "draws",
-                  "calls receiving the caller's rng in %s are %s, reviewed: %s (a draw was added, removed, duplicated or "
-                  "re-routed)" % (short(f.key), got, exp), f.loc, {"found": got})
-    for k in DRAW_SITES:
-        if k not in seen_fns and DRAW_SITES[k]:
+        tail = f.key.split("::", 1)[1] if "::" in f.key else f.key
+        core = core_by_name.get(tail)
+        if f.crate not in ("frost_core", "frost_rerandomized") and core:
+            # thin ciphersuite wrappers: the same draws as the core function of the same name, arguments in order
+            cs = draws.normal_form(draws.draw_summary(P, P.fns[core], memo)) if core in P.fns else None
+            ctx.check(got == cs, "DRAW-site", f.key, "wrapper-forwards-rng-once",
+                      "ciphersuite wrapper %s must make exactly the draws of the core function of the same name (found %s, "
+                      "core: %s)" % (short(f.key), got, cs), f.loc)
+            continue
+        ctx.note("DRAW-site", f.key, "rng consumer outside the reviewed table (covered through its callers' summaries): %s" % got)
+    for k in DRAW_SUMMARY:
+        if k not in seen_fns:
             ctx.violation("DRAW-site", k, "anchor-missing", "reviewed draw site %s not found" % k)
     # (iii) per-item draws inside the per-item construct
     per_coefficient_draw(ctx)
@@ -176,7 +159,7 @@ def run(ctx):
     if f:
         v = FnView.get(P, f)
         rng = arg(4)
-        oks = [v.cx.operand(rv["ops"][0]) for (b, k, rv) in ret_writes(f) if k == "ok"]
+        oks = ok_values(f, v)
         good = len(oks) == 1
         if good:
             t = oks[0]
@@ -244,7 +227,7 @@ def run(ctx):
     f = ctx.anchor("frost_rerandomized::Randomizer::<C>::new_from_commitments")
     if f:
         v = FnView.get(P, f)
-        oks = [v.cx.operand(rv["ops"][0]) for (b, k, rv) in ret_writes(f) if k == "ok"]
+        oks = ok_values(f, v)
         good = False
         if len(oks) == 1 and oks[0][0] == "agg":
             seed = oks[0][4][1][1]
